@@ -32,11 +32,15 @@ import (
 // scenarios
 
 type Step struct {
-	Op   string `json:"op"`             // merge: send close take drain | repl: send close take drain | smerge: item end err cnext close crel
+	Op   string `json:"op"`             // merge: send close take drain | repl: send close take drain | smerge: item end err cnext ccancel close crel sleep
 	I    int    `json:"i,omitempty"`    // input / destination
 	V    int    `json:"v,omitempty"`    // value; negative = nil interface value
 	E    int    `json:"e,omitempty"`    // injected error id
 	Live bool   `json:"live,omitempty"` // cnext: context still live
+	// sleep: virtual time that passes while nothing else happens (time.ParseDuration syntax: "61s", "25h");
+	// `time.Sleep` inside the bubble, which advances the fake clock once every goroutine is durably
+	// blocked, followed by synctest.Wait()
+	D string `json:"d,omitempty"`
 }
 
 type Scn struct {
@@ -801,6 +805,7 @@ func execSmerge(t *testing.T, sc Scn) *runOut {
 		terminated := make([]bool, k) // harness has released end/err for this gated input
 		delivered := make([]int, k)
 		params := func() map[string]interface{} { return map[string]interface{}{"inputs": k} }
+		idle := time.Duration(0) // > 0: the step being judged is `sleep <idle>` — nothing but time has passed
 		check := func(act string) {
 			synctest.Wait()
 			mu.Lock()
@@ -810,6 +815,13 @@ func execSmerge(t *testing.T, sc Scn) *runOut {
 			for ; reported < len(results); reported++ {
 				r := results[reported]
 				news = append(news, r.String())
+				if idle > 0 && (r.kind == "err" || r.kind == "other") && firstErr == 0 && !closeStarted && pendingLive {
+					// the text: "reports the first error of any input", "finishes exactly when its inputs do":
+					// a failure that nothing but the passing of time produced is neither
+					o.fail("smerge-failed-while-idle", map[string]interface{}{"inputs": k},
+						"the merged stream reported %s after %s of idleness although no input had failed, Close had not been called and the consumer's context was live (every input was parked in Next or had ended normally)",
+						r.String(), idle)
+				}
 				allEnded, allDelivered, anyErr := true, true, false
 				for i, g := range ins {
 					if !g.ended {
@@ -838,7 +850,10 @@ func execSmerge(t *testing.T, sc Scn) *runOut {
 						o.fail("smerge-early-end", params(), "merged stream ended before all inputs ended and all their items were delivered")
 					}
 				case "err":
-					if !firstErrs[r.e] {
+					if !firstErrs[r.e] && firstErr == 0 {
+						o.fail("smerge-first-error", params(), "merged stream reported E%d although no input had failed", r.e)
+						o.fail("c08-merge-wrong-error", params(), "merged stream reported E%d although no input had failed", r.e)
+					} else if !firstErrs[r.e] {
 						o.fail("smerge-first-error", params(), "merged stream reported E%d, the first input error was E%d", r.e, firstErr)
 						o.fail("c08-merge-wrong-error", params(), "merged stream reported E%d, the first input error was E%d", r.e, firstErr)
 					}
@@ -1068,6 +1083,21 @@ func execSmerge(t *testing.T, sc Scn) *runOut {
 				callNext(st.Live)
 				o.effSteps++
 				check("cnext " + map[bool]string{true: "live", false: "expired"}[st.Live])
+			case "ccancel":
+				// the context of the pending Next is cancelled while the call is in progress
+				mu.Lock()
+				ok := pending && pendingLive
+				if ok {
+					pendingLive = false
+				}
+				mu.Unlock()
+				if !ok {
+					continue
+				}
+				cancelPending()
+				o.effSteps++
+				o.notes["ccancel-while-pending"]++
+				check("ccancel")
 			case "close":
 				if closed || isPending() {
 					continue
@@ -1083,6 +1113,26 @@ func execSmerge(t *testing.T, sc Scn) *runOut {
 				close(ins[st.I].closeGate)
 				o.effSteps++
 				check(fmt.Sprintf("crel %d", st.I))
+			case "sleep":
+				d, err := time.ParseDuration(st.D)
+				if err != nil || d <= 0 {
+					continue
+				}
+				// the script's goroutine is the only one that is not durably blocked (quiescent point), so the
+				// fake clock jumps: first to any timer the library has armed within d (the harness has none) —
+				// its effects run to quiescence —, finally to now+d
+				time.Sleep(d)
+				o.effSteps++
+				o.notes["sleep"]++
+				if d >= time.Hour {
+					o.notes["sleep>=1h"]++
+				}
+				if isPending() {
+					o.notes["sleep-with-next-pending"]++
+				}
+				idle = d
+				check("sleep " + d.String())
+				idle = 0
 			}
 		}
 		// cleanup (not part of the checked trace): make every goroutine end
@@ -1372,9 +1422,16 @@ func genSmerge(r *vlib.Rand, k int) Scn {
 	steps := r.Range(0, 14)
 	closed := false
 	errs := 0
+	// one scenario in three lets (virtual) time pass between the actions: inputs idle for seconds, hours,
+	// weeks while a Next is pending or not — the merged stream must neither fail nor end on its own
+	sleepy := r.Chance(1, 3)
 	for s := 0; s < steps; s++ {
 		if len(sc.Slow) > 0 && r.Chance(1, 7) {
 			crel()
+			continue
+		}
+		if sleepy && r.Chance(1, 4) {
+			sc.Steps = append(sc.Steps, Step{Op: "sleep", D: idleDurations[r.Intn(len(idleDurations))]})
 			continue
 		}
 		switch r.Pick(6, 2, 1, 7, 1) {
@@ -1401,6 +1458,10 @@ func genSmerge(r *vlib.Rand, k int) Scn {
 		case 3:
 			if !closed {
 				sc.Steps = append(sc.Steps, Step{Op: "cnext", Live: !r.Chance(1, 6)})
+				if r.Chance(1, 8) {
+					// the consumer gives up while waiting (skipped when that Next has already returned)
+					sc.Steps = append(sc.Steps, Step{Op: "ccancel"})
+				}
 			}
 		case 4:
 			if !closed && r.Chance(1, 2) {
@@ -1412,6 +1473,9 @@ func genSmerge(r *vlib.Rand, k int) Scn {
 	if !closed {
 		// finish: often let every input end and read to the end, then close; sometimes close with
 		// inputs that will block forever
+		if sleepy && r.Chance(1, 2) {
+			sc.Steps = append(sc.Steps, Step{Op: "sleep", D: idleDurations[r.Intn(len(idleDurations))]})
+		}
 		if r.Chance(3, 5) {
 			for i := 0; i < k; i++ {
 				if !term[i] {
@@ -1513,6 +1577,70 @@ func directedSlowClose() []Scn {
 	return out
 }
 
+// idleDurations: how long the inputs stay silent in the random scenarios.
+var idleDurations = []string{"1ms", "1s", "59s", "61s", "10m", "1h", "2h", "25h", "1000h"}
+
+// directedIdle: (virtual) time passes — just under / just over a minute, an hour, more than a day — while
+// every input is parked in a Next that honours the context Merge gave it, (i) with a Next of the consumer
+// pending, (ii) with no Next pending, (iii) after items were delivered and (k > 1) one input has ended; then
+// an input delivers an item / every input ends / an input fails, and the consumer reads on: the merged
+// stream must not have failed or ended in the meantime, nothing may be lost, and what is reported is the
+// input's item / the normal end / the input's own error. Run in every tier.
+func directedIdle() []Scn {
+	var out []Scn
+	next := Step{Op: "cnext", Live: true}
+	for k := 1; k <= 3; k++ {
+		for _, d := range []string{"59s", "61s", "1h", "25h"} {
+			sleep := Step{Op: "sleep", D: d}
+			for place := 0; place < 3; place++ {
+				for follow := 0; follow < 3; follow++ {
+					sc := Scn{Fam: "smerge", N: k}
+					seq := make([]int, k)
+					item := func(i int) Step {
+						seq[i]++
+						return Step{Op: "item", I: i, V: i*1000 + seq[i] - 1}
+					}
+					ended := -1
+					switch place {
+					case 0: // a Next is waiting, every input is parked
+						sc.Steps = []Step{next, sleep}
+					case 1: // nobody is waiting
+						sc.Steps = []Step{sleep, next}
+					case 2: // after an item of every input, the last input has ended (k > 1), a Next is waiting
+						for i := 0; i < k; i++ {
+							sc.Steps = append(sc.Steps, item(i), next)
+						}
+						if k > 1 {
+							ended = k - 1
+							sc.Steps = append(sc.Steps, Step{Op: "end", I: ended})
+						}
+						sc.Steps = append(sc.Steps, next, sleep)
+					}
+					switch follow {
+					case 0: // an input delivers; a second idle period with the next Next pending — the consumer gives
+						// up, asks again —; it delivers again
+						sc.Steps = append(sc.Steps, item(0), next, sleep, Step{Op: "ccancel"}, next, item(0), next)
+					case 1: // every input ends
+					case 2: // an input fails with its own error (plain, or context.DeadlineExceeded itself)
+						sc.Steps = append(sc.Steps, Step{Op: "err", I: 0, E: []int{1, errBareDeadline, 21}[k-1]}, next, next)
+					}
+					if follow != 2 {
+						for i := 0; i < k; i++ {
+							if i != ended {
+								sc.Steps = append(sc.Steps, Step{Op: "end", I: i})
+							}
+						}
+						sc.Steps = append(sc.Steps, next, next)
+					}
+					sc.Steps = append(sc.Steps, sleep, Step{Op: "close"})
+					out = append(out, sc)
+				}
+			}
+		}
+	}
+	return out
+}
+
 func allInputs(k int) []int {
 	out := make([]int, k)
 	for i := range out {
@@ -1542,7 +1670,9 @@ func enumerate(t *testing.T, ms *models, res *vlib.Result, until time.Time) bool
 		{"repl", 0, 3}, {"repl", 1, 5}, {"repl", 2, 5}, {"repl", 3, 4},
 		{"smerge", 0, 3}, {"smerge", 1, 5}, {"smerge", 2, 4}, {"smerge", 3, 3},
 		// inputs whose Close takes time (input 0 / every input), `crel i` in the alphabet
-		{"smerge-slow0", 1, 4}, {"smerge-slow0", 2, 4}, {"smerge-slowall", 2, 3}}
+		{"smerge-slow0", 1, 4}, {"smerge-slow0", 2, 4}, {"smerge-slowall", 2, 3},
+		// time passes: `sleep 2h` in the alphabet
+		{"smerge-idle", 1, 4}, {"smerge-idle", 2, 3}}
 	for _, sp := range spaces {
 		var alpha []Step
 		var tail []Step
@@ -1561,7 +1691,7 @@ func enumerate(t *testing.T, ms *models, res *vlib.Result, until time.Time) bool
 				alpha = append(alpha, Step{Op: "take", I: j})
 			}
 			tail = append(tail, Step{Op: "close"}, Step{Op: "drain"})
-		case "smerge", "smerge-slow0", "smerge-slowall":
+		case "smerge", "smerge-slow0", "smerge-slowall", "smerge-idle":
 			// input 0 fails with a plain error, input 1 with context.Canceled itself, input 2 with an
 			// error wrapping it; a single input with either of the first two
 			for i := 0; i < sp.n; i++ {
@@ -1580,6 +1710,9 @@ func enumerate(t *testing.T, ms *models, res *vlib.Result, until time.Time) bool
 			for _, i := range slow {
 				alpha = append(alpha, Step{Op: "crel", I: i})
 				tail = append(tail, Step{Op: "crel", I: i})
+			}
+			if sp.fam == "smerge-idle" {
+				alpha = append(alpha, Step{Op: "sleep", D: "2h"}, Step{Op: "ccancel"})
 			}
 			tail = append(tail, Step{Op: "cnext", Live: true}, Step{Op: "close"})
 		}
@@ -1696,12 +1829,17 @@ func TestVerif(t *testing.T) {
 			t.Fatalf("corpus file %s: %v", f, err)
 		}
 		res.Count("corpus")
-		runScn(t, ms, res, sc, false)
+		runScn(t, ms, res, sc, true) // a failing corpus case is shrunk like any other (on a green tree this costs nothing)
 	}
 
 	// inputs whose Close takes time x {error while siblings are parked, normal end, Close}: every run
 	for _, sc := range directedSlowClose() {
 		res.Count("directed-slow-close")
+		runScn(t, ms, res, sc, true)
+	}
+	// inputs idle for a minute / an hour / a day x {Next pending, not pending, after items} x {item, end, error}
+	for _, sc := range directedIdle() {
+		res.Count("directed-idle")
 		runScn(t, ms, res, sc, true)
 	}
 
